@@ -26,6 +26,7 @@ CONTROLLED = z3.Function("Gate.controlled", Obj, z3.IntSort(), Obj)
 LIFT = z3.Function("lifted_matrix", Obj, z3.IntSort(), Obj)
 FOLD = z3.Function("reduce_matmul", ObjArr, z3.IntSort(), Obj)
 EYE = z3.Function("eye", z3.IntSort(), Obj)
+BIND = z3.Function("Operation.bind", Obj, Obj, Obj)
 
 
 def axioms():
@@ -104,6 +105,7 @@ def install():
         "gate": lambda self: SObj("Gate", GATE_OF(self.e)),
         "qubit_indices": lambda self: qubit_tuple(self.e),
         "lifted_matrix": lambda self: (lambda n: SObj("Mat", LIFT(self.e, lift(n)))),
+        "bind": lambda self: (lambda m: SObj("GateOp", BIND(self.e, lift(m)))),
     }
     sym.OBJ_SCHEMAS["Gate"] = {
         "dagger": lambda self: SObj("Gate", DAGGER(self.e)),
@@ -142,6 +144,7 @@ SPEC = {
     "LIFT": lambda o, n: SObj("Mat", LIFT(lift(o), lift(n))),
     "EYE": lambda n: SObj("Mat", EYE(lift(n))),
     "IS_FOLD": fold_equal,
+    "BIND": lambda o, m: SObj("GateOp", BIND(lift(o), lift(m))),
 }
 
 
@@ -192,7 +195,13 @@ def contracts():
                 "all(result.operations[j] == circuit._operations[j] for j in range(len(circuit._operations))) and "
                 "all(result.operations[len(circuit._operations) + j] == other._operations[j] for j in range(len(other._operations)))",
         spec=dict(SPEC), doc="c1 + c2: operations of c1 followed by those of c2, width = the larger width")
-    return {"to_unitary": c_unitary, "inverse": c_inverse, "controlled": c_controlled, "append": c_append}
+    c_bind = vc.Contract(
+        key=CIRC + ":Circuit.bind", params={"self": "Any", "symbols_map": "Obj:SymbolMap"},
+        requires="n >= 1", ghost={"ops": "self._operations", "n": "self._n_qubits"},
+        ensures="result.n_qubits == n and len(result.operations) == len(ops) and all(result.operations[j] == BIND(ops[j], symbols_map) for j in range(len(ops))) "
+                "and len(self._operations) == len(ops) and self._n_qubits == n",
+        spec=dict(SPEC), doc="Circuit.bind maps bind over the operations in order with the same map and keeps the register width, whatever the circuit contains")
+    return {"to_unitary": c_unitary, "inverse": c_inverse, "controlled": c_controlled, "append": c_append, "bind": c_bind}
 
 
 def mk_circuit(ns, name="circuit"):
